@@ -179,7 +179,11 @@ type Result struct {
 func (r Req) Call(ctx context.Context, g shwap.Getter, hdr *header.ExtendedHeader) (res Result) {
 	defer func() {
 		if p := recover(); p != nil {
-			res.Panic = fmt.Sprintf("%v\n%s", p, debug.Stack())
+			st := string(debug.Stack())
+			if len(st) > 2500 {
+				st = st[:2500] + "..."
+			}
+			res.Panic = fmt.Sprintf("%v\n%s", p, st)
 		}
 	}()
 	switch r.Kind {
